@@ -119,19 +119,21 @@ def pair_ad(ctx, dev, meth: str, track: str, emit_kind: str, rule: str = "C01.pa
             continue
         head = loops[-1]
         body = fv.cfg.loop_body[head]
-        tests = fv.controlling(cs.node, within=body, skip_raising=True)
-        filt_ok = True
-        detail = ""
-        for d, pol in tests:
-            tn = fv.cfg.nodes[d]
-            r = fv.res.resolve(tn.ast, d)
+        atoms = fv.atoms_at(cs.node, within=body, skip_raising=True)
+        compounds = fv.compound_conditions_at(cs.node, within=body, skip_raising=True)
+        filt_ok = not compounds
+        detail = f"`{show(compounds[0][0])[:60]}`" if compounds else ""
+        n_pos = 0
+        for r, pol, br in atoms:
             cm = to_cmp(r, pol)
-            if cm is None or cm != Cmp(Poly.symbol(vol), ">"):
+            if cm is not None and cm == Cmp(Poly.symbol(vol), ">"):
+                n_pos += 1
+            else:
                 filt_ok = False
-                detail = f"`{stmt_key(tn.ast)}`"
-        ctx.rep.check(filt_ok and len(tests) <= 1, rule, c + "/filter", "records are skipped only for volume <= 0 (`volume > 0` guard)",
-                      f"emission is filtered by {detail or 'several conditions'}: tracked steps with a positive volume may get no record (or zero steps a record)", where=w)
-        exits = [n for n in (fv.cfg.nodes[i] for i in body) if n.kind == "stmt" and isinstance(n.ast, (ast.Break, ast.Continue, ast.Return))]
+                detail = f"`{'' if pol else 'not '}{show(r)[:60]}`"
+        ctx.rep.check(filt_ok and n_pos == 1, rule, c + "/filter", "records are skipped only for volume <= 0 (`volume > 0` guard)",
+                      f"emission is filtered by {detail or 'something other than exactly `volume > 0`'}: tracked steps with a positive volume may get no record (or zero steps a record)", where=w)
+        exits = [n for n in (fv.cfg.nodes[i] for i in body) if n.kind == "stmt" and isinstance(n.ast, (ast.Break, ast.Return))]
         ctx.rep.check(not exits, rule, c + "/exits", "no early exit in the emission loop", "early exit in the emission loop drops records of tracked steps", where=w)
         it_tr = seq_transformers(we[1]) + seq_transformers(ve[1])
         ctx.rep.check(not it_tr, rule, c + "/iteration-space", "loop iterates the full tracked sequences", f"emission iterates a transformed sequence {it_tr}", where=w)
